@@ -128,3 +128,13 @@ Example C12_nonvacuous :
   /\ vector (run repaired witness_not_hex) = []
   /\ vector (run repaired witness_body_malformed) = [].
 Proof. exact nonvacuous_examples. Qed.
+
+(* the model's hex gate is hex::decode's acceptance (even length AND all hex digits): an odd-length all-hex
+   key is refused by the current code and would leak through Error::Hex(.., OddLength) without the gate *)
+Example C12_odd_length_is_not_hex :
+  hex_decode_accepts false true = false /\ hex_decode_accepts true false = false
+  /\ hex_decode_accepts true true = true /\ hex_decode_accepts false false = false
+  /\ vector (run current [Poll (SOk true None 1) (KOk 1 (hex_decode_accepts false true)) AOk; ClientRequest]) = []
+  /\ vector (run only_body_repair [Poll (SOk true None 1) (KOk 1 (hex_decode_accepts false true)) AOk])
+     = [(KeyFile, [1%N]); (Log, [1%N]); (Stdout, [1%N])].
+Proof. exact odd_length_is_not_hex. Qed.
